@@ -615,9 +615,17 @@ func init() {
 	ext[symPkg+"WouldBlock"] = func(fr *frame, a []value) (res value) {
 		i := fr.i
 		res = false
+		// a call that spins without end (polling a flag nobody can change any more) blocks just as well:
+		// inside WouldBlock the instruction budget is small and running out of it counts as blocked
+		saved := i.maxSteps
+		if i.steps+3_000_000 < i.maxSteps {
+			i.maxSteps = i.steps + 3_000_000
+		}
 		defer func() {
+			exhausted := i.steps > i.maxSteps
+			i.maxSteps = saved
 			if r := recover(); r != nil {
-				if pe, ok := r.(pathEnd); ok && pe.kind == "deadlock" {
+				if pe, ok := r.(pathEnd); ok && (pe.kind == "deadlock" || (pe.kind == "budget" && exhausted && i.steps <= saved)) {
 					res = true
 					return
 				}
@@ -995,6 +1003,90 @@ func init() {
 	ext["(*sync.RWMutex).RUnlock"] = func(fr *frame, a []value) value { fr.i.rwUnlock(a[0].(*value), true); return nil }
 	ext["(*sync.Pool).Get"] = func(fr *frame, a []value) value { return fr.i.poolGet(fr, a[0].(*value)) }
 	ext["(*sync.Pool).Put"] = func(fr *frame, a []value) value { fr.i.poolPut(a[0].(*value), a[1]); return nil }
+	// sync/atomic integer operations on plain cells (atomic.Int32 etc. are thin wrappers around these)
+	for _, w := range []struct {
+		suffix string
+		bits   uint
+		signed bool
+	}{{"Int32", 32, true}, {"Int64", 64, true}, {"Uint32", 32, false}, {"Uint64", 64, false}, {"Uintptr", 64, false}} {
+		w := w
+		wrap := func(v int64) int64 {
+			if w.bits == 64 {
+				return v
+			}
+			if w.signed {
+				return int64(int32(v))
+			}
+			return int64(uint32(v))
+		}
+		cellOf := func(fr *frame, v value) *value {
+			p, _ := v.(*value)
+			if p == nil {
+				fr.i.rtPanic("invalid memory address or nil pointer dereference")
+			}
+			return p
+		}
+		num := func(fr *frame, v value) int64 {
+			if n, ok := v.(int64); ok {
+				return n
+			}
+			fr.i.unsupported("symbolic operand in sync/atomic operation")
+			return 0
+		}
+		ext["sync/atomic.Load"+w.suffix] = func(fr *frame, a []value) value {
+			c := cellOf(fr, a[0])
+			if t := fr.i.threads; t != nil {
+				t.syncPoint(fr.i, "atomic.Load")
+				t.acquire(fr.i, c)
+			}
+			return num(fr, *c)
+		}
+		ext["sync/atomic.Store"+w.suffix] = func(fr *frame, a []value) value {
+			c := cellOf(fr, a[0])
+			if t := fr.i.threads; t != nil {
+				t.syncPoint(fr.i, "atomic.Store")
+				t.release(fr.i, c)
+			}
+			fr.i.rawWrite(c, wrap(num(fr, a[1])))
+			return nil
+		}
+		ext["sync/atomic.Add"+w.suffix] = func(fr *frame, a []value) value {
+			c := cellOf(fr, a[0])
+			if t := fr.i.threads; t != nil {
+				t.syncPoint(fr.i, "atomic.Store")
+				t.acquire(fr.i, c)
+				t.release(fr.i, c)
+			}
+			nv := wrap(num(fr, *c) + num(fr, a[1]))
+			fr.i.rawWrite(c, nv)
+			return nv
+		}
+		ext["sync/atomic.Swap"+w.suffix] = func(fr *frame, a []value) value {
+			c := cellOf(fr, a[0])
+			if t := fr.i.threads; t != nil {
+				t.syncPoint(fr.i, "atomic.Store")
+				t.acquire(fr.i, c)
+				t.release(fr.i, c)
+			}
+			old := num(fr, *c)
+			fr.i.rawWrite(c, wrap(num(fr, a[1])))
+			return old
+		}
+		ext["sync/atomic.CompareAndSwap"+w.suffix] = func(fr *frame, a []value) value {
+			c := cellOf(fr, a[0])
+			if t := fr.i.threads; t != nil {
+				t.syncPoint(fr.i, "atomic.Store")
+				t.acquire(fr.i, c)
+				t.release(fr.i, c)
+			}
+			if num(fr, *c) != num(fr, a[1]) {
+				return false
+			}
+			fr.i.rawWrite(c, wrap(num(fr, a[2])))
+			return true
+		}
+	}
+	ext["time.Sleep"] = func(fr *frame, a []value) value { return nil }
 	ext["(*sync/atomic.Pointer[T]).Load"] = func(fr *frame, a []value) value { return fr.i.atomicLoad(a[0].(*value)) }
 	ext["(*sync/atomic.Pointer[T]).Store"] = func(fr *frame, a []value) value {
 		fr.i.atomicStore(a[0].(*value), a[1])
